@@ -548,7 +548,8 @@ type SpecFunc struct {
 	Params []Binder
 	Ret    string
 	Body   *Clause   // may be nil (uninterpreted)
-	Axioms []*Clause // axioms over it
+	Axioms []*Clause // axioms over it (instantiated for the actual arguments of each use)
+	Reads  []string  // heap families an uninterpreted spec function depends on
 	Pkg    string
 	Line   int
 }
@@ -869,6 +870,8 @@ func parseContractFile(path, pkg string) (*ContractFile, error) {
 		case "reads":
 			if fn != nil {
 				fn.Reads = append(fn.Reads, strings.FieldsFunc(rc.text, func(r rune) bool { return r == ',' || r == ' ' })...)
+			} else if sf != nil {
+				sf.Reads = append(sf.Reads, strings.FieldsFunc(rc.text, func(r rune) bool { return r == ',' || r == ' ' })...)
 			}
 		case "noframe":
 			if fn != nil {
